@@ -185,6 +185,21 @@ def gen_nonascii_set(rng):
     return globs, paths
 
 
+def gen_reqext_set(rng):
+    """several globs that end in the same literal extension but are not pure `*.ext` (the required-extension table:
+    one bucket per extension, every regex of the bucket must be tried), written so that two or more of them match
+    the same path; other extensions and a plain `*.ext` mixed in"""
+    ext = rng.choice([b".a", b".b", b".ab", b".-", b".A"])
+    o = rng.choice([4, 6, 6])
+    stems = [b"a/*", b"a/b*", b"a/?*", b"?*", b"[ab]*", b"a*", b"**/b*", b"a/**/*b", b"*/b*", b"a/*b"]
+    globs = [(o, st + ext) for st in rng.sample(stems, rng.randint(2, 4))]
+    if rng.random() < 0.5:
+        globs.insert(rng.randint(0, len(globs)), (o, rng.choice([b"*", b"a/*", b"?"]) + rng.choice([b".b", b".a", b".x"])))
+    paths = [pre + stem + ext for pre in (b"", b"a/", b"b/", b"a/b/") for stem in (b"a", b"b", b"ab", b"bb", b"b-b", b"")]
+    paths += [b"a/b" + ext + b"/x", b"a/b"]
+    return globs, paths
+
+
 def gen_opts(rng):
     n = rng.randint(0, 15)
     if rng.random() < 0.5:
@@ -213,6 +228,11 @@ MULTI_CORPUS = [   # sets whose prefix / suffix tables hold literals of differen
     [(4, b"**/a/b/ab"), (4, b"**/b/ab")], [(4, b"**/b/ab"), (4, b"**/a/b/ab")], [(6, b"**/a.b/a/b"), (6, b"**/a/b"), (6, b"**/b")],
     [(4, b"*abA"), (4, b"*bA")], [(4, b"*bA"), (4, b"*abA")], [(4, b"ab.-*"), (4, b"ab*")], [(4, b"ab*"), (4, b"ab.-*")],
     [(4, b"ab/a/**"), (4, b"ab/**")], [(6, b"a/b/**"), (6, b"a/**"), (6, b"a/b/a/**")],
+]
+
+REQEXT_CORPUS = [   # two and three required-extension globs of one bucket matching the same path, both orders
+    [(6, b"a/*.b"), (6, b"a/b*.b")], [(6, b"a/b*.b"), (6, b"a/*.b")], [(4, b"?*.a"), (4, b"a?.a"), (4, b"[ab]*.a")],
+    [(6, b"*.a"), (6, b"a*.a"), (6, b"*b.a")],
 ]
 
 NA_CORPUS = [   # non-ASCII literals in the strategy shapes; alone (theirs is the longest literal) and with ASCII company
@@ -518,6 +538,14 @@ def run(ctx):
     ctx.cov["multi_literal_sets"] = len(msets)
     ctx.cov["multi_literal_paths"] = len(mpaths)
     check_set(ctx, MULTI_CORPUS + msets, 3, DEEP_PATHS + mpaths)
+    # --- required-extension buckets: several globs with the same trailing extension matching the same path
+    rsets, rpaths = [], []
+    for _ in range(ctx.count(60)):
+        gs, ps = gen_reqext_set(rng)
+        rsets.append(gs)
+        rpaths += ps
+    ctx.cov["required_ext_sets"] = len(rsets)
+    check_set(ctx, REQEXT_CORPUS + rsets, 2, sorted(set(rpaths)))
     # --- non-ASCII stream: multi-byte UTF-8 literals (set = members on the code; model byte-wise)
     nsets, npaths = [], []
     for _ in range(ctx.count(60)):
